@@ -446,6 +446,9 @@ _FRESH_SNIPPET = r"""
 import sys, json, pickle, warnings
 warnings.filterwarnings("ignore")
 sys.path.insert(0, {verif!r})
+import os
+if os.environ.get("VERIF_REPO"):
+    sys.path.insert(0, os.environ["VERIF_REPO"])
 import numpy as np, pandas as pd
 from sim import seams, kernel
 req = pickle.load(sys.stdin.buffer)
